@@ -95,7 +95,7 @@ class _AliasEval(Evaluator):
         self.sized = sized
 
     def ev(self, e: ast.AST) -> Any:
-        if self.sized and isinstance(e, (ast.Name, ast.Attribute, ast.Subscript)) and norm(e) in self.sized:
+        if self.sized and isinstance(e, (ast.Name, ast.Attribute, ast.Subscript, ast.Call)) and norm(e) in self.sized:
             # truthiness of a list / tuple / dict the rule knows to be one: len(x) > 0
             k = f"len({norm(e)})"
             if k not in self.assign:
